@@ -238,26 +238,38 @@ def pathline(ctx):
             ctx.ob("C18.pathline", f"{what} callable", False, f"raises {r.exc.typename}", loc)
             continue
         new = I.guards[g0:]
-        inside_vals = [o[1] for g, o, l, fn in new if o[0] == "return" and isinstance(o[1], np.ndarray)]
         expect = stub.fn(I, nan, p)
-        okin = any(v.shape == expect.shape and all(alg.equal(a, b) for a, b in zip(v.flat, expect.flat)) for v in inside_vals)
-        ctx.ob("C18.pathline", f"{what} inside the box returns {'velocity' if what == 'fun' else 'velocity gradient'} at the solver point",
-               okin, f"guarded returns: {[short(v.flat[0]) for v in inside_vals]}", loc)
-        okout = isinstance(outside, np.ndarray) and outside.shape == expect.shape and all(lift(c).is_zero() for c in outside.flat)
-        ctx.ob("C18.pathline", f"{what} outside the box is zero", okout, f"got {outside!r}"[:200], loc)
         need = set()
         for arr in (p, lo, hi):
             for c_ in arr.flat:
                 need |= alg.atoms_of(c_)
-        gate = [g for g, o, l, fn in new if o[0] == "return" and need <= guard_atoms(g)]
-        ctx.ob("C18.pathline", f"{what} gated by a test on all of (point, min, max)", bool(gate), "", loc)
         want = set()
         for i_ in range(3):
             want.add(("GtE", p[i_].key(), lo[i_].key()))
             want.add(("LtE", p[i_].key(), hi[i_].key()))
-        got_sets = [box_constraints(g) for g in gate]
-        ctx.ob("C18.pathline", f"{what}: the inside-test is min_i <= point_i <= max_i for every coordinate", any(gs == want for gs in got_sets),
-               f"constraints found: {sorted((op, ) for gs in got_sets for op, *_ in (gs or []))[:8]}", loc)
+        # the callable has two outcomes, split by one data-dependent test: (condition, value under it, value otherwise); either branch may be
+        # the early return
+        splits = []
+        for g, o, l, fn in new:
+            if o[0] == "return" and isinstance(o[1], np.ndarray) and isinstance(outside, np.ndarray):
+                splits.append((g, o[1], outside))
+                splits.append((g.negate(), outside, o[1]))
+
+        def is_expect(v):
+            return v.shape == expect.shape and all(alg.equal(a, b) for a, b in zip(v.flat, expect.flat))
+
+        def is_zero(v):
+            return v.shape == expect.shape and all(lift(c_).is_zero() for c_ in v.flat)
+        gated = [s_ for s_ in splits if need <= guard_atoms(s_[0])]
+        boxed = [s_ for s_ in gated if box_constraints(s_[0]) == want]
+        ctx.ob("C18.pathline", f"{what} gated by a test on all of (point, min, max)", bool(gated), "", loc)
+        ctx.ob("C18.pathline", f"{what}: the inside-test is min_i <= point_i <= max_i for every coordinate", bool(boxed),
+               f"constraints found: {sorted((op, ) for s_ in gated for op, *_ in (box_constraints(s_[0]) or []))[:8]}", loc)
+        pick = boxed or gated or splits
+        ctx.ob("C18.pathline", f"{what} inside the box returns {'velocity' if what == 'fun' else 'velocity gradient'} at the solver point",
+               any(is_expect(s_[1]) for s_ in pick), f"values under the inside-test: {[short(s_[1].flat[0]) for s_ in pick[:2]]}", loc)
+        ctx.ob("C18.pathline", f"{what} outside the box is zero", any(is_expect(s_[1]) and is_zero(s_[2]) for s_ in pick) if pick else False,
+               f"values outside: {[short(s_[2].flat[0]) for s_ in pick[:2]]}", loc)
     # event uses the gradient at the same point
     if isinstance(ev[0], FuncVal):
         g0 = len(I.guards)
